@@ -377,6 +377,17 @@ def corpus():
              watch=w, desc=desc)
         for tns in (1, 0) for desc in (False, True) for w in ([(1, 3)], [(1, 2), (1, 3)], [(1, 3), (2, 3)])
     ] + [
+        # a missing OPTIONAL source listed BEFORE other sources: the collection must go on - the later (present) source is read,
+        # a later missing required source still stops the pass; both template scopes, range / index|default / label templates
+    ] + [
+        scen(tns, T(tns, [S(2, ns, 2, opt=True, items=((1, 2),)), S(1, ns, 1, opt=opt2)] + extra, c), store,
+             [P, P, put((2, 1, 2), [(1, 9)]), P])
+        for tns, ns in ((1, 0), (0, 1))
+        for c in (code(form=0, ns=0 if tns else 1), code(form=2, pick=(1, 2, 3), ns=0 if tns else 1), code(form=7, ns=0 if tns else 1))
+        for opt2 in (False, True)
+        for extra, store in (([], [cm1]), ([S(1, ns, 3, items=((1, 3),))], [cm1]),
+                             ([S(1, ns, 3, items=((1, 3),))], [cm1, O((1, 1, 3), [(1, 7)], label=True)]), ([], []))
+    ] + [
         # empty destination in a source item (was a panic before a818a7e): SourceError
         scen(1, T(1, [S(1, 0, 1, items=((1, 0),))], code()), [cm1], [P, P]),
         scen(1, T(1, [S(1, 0, 1, items=((1, 1), (1, 0)))], code()), [cm1], [P]),
